@@ -159,8 +159,15 @@ NOTES = {
  'C12-maf-evicts-by-age-difference': 'moving average evicts by `now - oldest >= window` instead of `oldest <= now - window`: two consecutive stamps more than i64::MAX ns apart overflow (panic / negative weights)',
  'C16-static-lock-macros-lazy-init-in-unsafe': 'static_rw_lock_reference! / static_mutex_reference! initialise lazily inside their own `unsafe` block: the caller\'s initial-value expression is compiled in an unsafe context',
  'C20-encoder-updates-terminal-after-writing': 'encoder wrapper refreshes its terminal AFTER writing the reading: if that terminal follows a state getter, the followed state overwrites the reading',
+ 'C04-pid-previous-sample-sentinel-at-i64-min': 'PID keeps "no previous sample" as a sentinel stamp i64::MIN instead of an Option: a sample stamped exactly i64::MIN followed by another one gets no integral / derivative',
+ 'C05-ewma-drops-samples-older-than-pre-error-time': 'EWMA keeps its update time across an error and drops samples stamped strictly earlier: Err(e), then an earlier-stamped sample, leaves get() returning Err(e)',
+ 'C17-reference-send-for-send-sync-payload': '`unsafe impl Send for Reference<T: Send + Sync>`: an Rc-backed (or bare-pointer) Reference can be moved to another thread in safe code; clones then race on the Rc counts',
 }
 HISTORY = {
+ 'C04-pid-previous-sample-sentinel-at-i64-min': 'MISSED at quick tier on arrival: node histories started no earlier than -2^60 and the shift twin stopped at i64::MIN + 1. Histories of the streams that do no `stamp - window` arithmetic may now '
+   'start at exactly i64::MIN, and the shift twin may land the first stamp there. Caught at quick tier since (`C04|time_shift|pid`). Allowing that start also exposed defect D7 (moving average, recorded as a known finding).',
+ 'C17-reference-send-for-send-sync-payload': 'caught by C16/quick on arrival (Miri: data race in the cross-thread case of the reference program) but not by C17 itself: the Send / Sync compile-time probe now also runs at the start of every C17 reference '
+   'history. Caught by C17/quick since (`C17|reference_crosses_threads|send_sync`).',
  'C02-expirer-clamps-negative-age': 'MISSED at both tiers: expiry limits were 0 .. i64::MAX. The random plans now also draw negative limits (-1, -1000, -5 s), with the clock placed just before / at / after `stamp + limit` as for the others. '
    'Caught at quick tier since.',
  'C12-maf-evicts-by-age-difference': 'MISSED at both tiers: histories only moved forward from one start, so two consecutive stamps were never more than i64::MAX ns apart. 3 % of the moving-average histories are now "eras": the first half '
